@@ -90,7 +90,7 @@ def run(tier, seed):
         off = rng.randint(0, step - 1)
         cases += exh[off::step]
     for fam, n in ((g.balanced, 150), (g.off_by, 150), (g.implicit, 60), (g.sub_unit, 80), (g.single, 30),
-                   (g.one_null, 40), (g.two_nulls, 15), (g.oddities, 30), (g.cancelling, 80), (g.lots, 200)):
+                   (g.one_null, 40), (g.two_nulls, 15), (g.oddities, 30), (g.cancelling, 80), (g.lots, 200), (g.bucket_decls, 40)):
         cases += [fam() for _ in range(n * k)]
     fc.run_cases(ctx, cases, fc.oracle_c01)
     journals = []
